@@ -132,8 +132,9 @@ def run_check(prop, tier, keep=False, only=None, jobs=16):
                         continue
                     if hr.status == "failure":
                         real = [f for f in hr.failed if f[1] == "Failure" and "unwinding assertion" not in f[0]]
-                        if not real:
-                            undecided.append("%s: only unwinding assertions failed (bound too small)" % h.name)
+                        if not real or any("unwinding assertion" in f[0] for f in hr.failed):
+                            # beyond the unwinding bound CBMC cuts paths: nothing else it reports for this harness is reliable
+                            undecided.append("%s: an unwinding assertion failed (bound too small)" % h.name)
                             continue
                         total_checks += hr.checks
                         discharged += hr.checks - len(hr.failed)
